@@ -262,6 +262,29 @@ theorem obname_len_helper_agrees (bs : List Nat) (i j : Nat) (o : ObName) (wf : 
 
 example : OBNAME [0x80, 1, 2, 3, 0x41, 0x42, 0x43, 0x44] 0 = .ok (⟨1, 2, [0x41, 0x42, 0x43]⟩, 7) := by rfl
 
+/-- **Integer codes SSHORT, USHORT, STATUS, SNORM, UNORM, SLONG, ULONG — decode_spec + consumes_exactly**: the `n`
+bytes at the index, big-endian, two's complement for the signed codes; exactly `n` bytes consumed; `IndexError`
+exactly when fewer than `n` bytes remain (`byteAt bs k` is byte `k` of the buffer). -/
+theorem rp66_int_decode_spec (bs : List Nat) (i : Nat) (wf : Bytes.wf bs) :
+    SSHORT bs i = (if i + 1 ≤ bs.length then .ok (twos 8 (byteAt bs i), i + 1) else .error .indexError) ∧
+    USHORT bs i = (if i + 1 ≤ bs.length then .ok (byteAt bs i, i + 1) else .error .indexError) ∧
+    STATUS bs i = USHORT bs i ∧
+    SNORM bs i = (if i + 2 ≤ bs.length then .ok (twos 16 (byteAt bs i * 256 + byteAt bs (i + 1)), i + 2)
+      else .error .indexError) ∧
+    UNORM bs i = (if i + 2 ≤ bs.length then .ok (byteAt bs i * 256 + byteAt bs (i + 1), i + 2)
+      else .error .indexError) ∧
+    SLONG bs i = (if i + 4 ≤ bs.length then
+        .ok (twos 32 (((byteAt bs i * 256 + byteAt bs (i + 1)) * 256 + byteAt bs (i + 2)) * 256 + byteAt bs (i + 3)), i + 4)
+      else .error .indexError) ∧
+    ULONG bs i = (if i + 4 ≤ bs.length then
+        .ok (((byteAt bs i * 256 + byteAt bs (i + 1)) * 256 + byteAt bs (i + 2)) * 256 + byteAt bs (i + 3), i + 4)
+      else .error .indexError) :=
+  ⟨sshort_spec bs i, (ushort_spec bs i).1, (ushort_spec bs i).2, snorm_spec bs i, unorm_spec bs i wf,
+    (slong_ulong_spec bs i).1, (slong_ulong_spec bs i).2⟩
+
+example : SNORM [9, 0xFF, 0x67] 1 = .ok (-153, 3) ∧ SLONG [0xFF, 0xFF, 0xFF, 0x67] 0 = .ok (-153, 4) ∧
+    SSHORT [0x99] 0 = .ok (-103, 1) ∧ ULONG [0, 0, 0, 0x99] 1 = .error .indexError := ⟨by rfl, by rfl, by rfl, by rfl⟩
+
 /-- **FSINGL / FDOUBL, decode_spec + consumes_exactly**: four (eight) bytes, big-endian, IEEE-754 fields
 (sign, biased exponent, fraction) incl. subnormals, signed zero, infinities and NaN. -/
 theorem fsingl_fdoubl_decode_spec (bs : List Nat) (i : Nat) :
